@@ -250,8 +250,33 @@ ENGINES["C07"] = run_c07
 ENGINES["C10"] = run_arena
 ENGINES["C02"] = run_arena_and_os
 ENGINES["C06"] = run_c06
-for _p in ("C01", "C03", "C04", "C05", "C08"):
+def run_c01(prop, tier, seed, workdir):
+    """C01: the algorithm layer of mem_prim_set (MemSet.tla: alignment head, unrolled word blocks, tail) is model-checked first"""
+    n, ml = (40, 30) if tier == "quick" else (64, 50)
+    st = tr = 0
+    for hc, must_hold in (("code", True), ("fromLen", False)):
+        cfg = os.path.join(workdir, "memset_%s.cfg" % hc)
+        tlc.write_cfg(cfg, constants=dict(N=n, W=4, B=3, MaxLen=ml, HeadCount=hc), invariants=["SetCorrect", "WordsAligned", "Progress"])
+        r = tlc.model_check("MemSet", cfg, workdir, workers=16)
+        if must_hold and (r["violated"] or not r["ok"]):
+            raise tlc.TLCError("MemSet.tla: the specified algorithm violates %s\n%s" % (r["violated"], r["out"][-1500:]))
+        if not must_hold and not r["violated"]:
+            raise tlc.TLCError("self-test: MemSet.tla does not reject the word count taken from the full length")
+        if must_hold:
+            st, tr = r["distinct"], r["states"]
+    res = run_arena_and_printf(prop, tier, seed, workdir)
+    res.coverage["states"] += st
+    res.coverage["transitions"] += tr
+    res.coverage["algorithm_layer_states"] = st
+    res.coverage["rule"] += ("; algorithm layer: MemSet.tla runs mem_prim_set (byte loop to the word boundary, unrolled word blocks with the fall-through block, tail bytes; word size 4, "
+                             "block 3) for every start alignment in %d addresses and every length <= %d: SetCorrect (exactly the addressed bytes), WordsAligned, Progress; the variant "
+                             "that takes the word count from the full length before the head loop is shown to violate SetCorrect" % (n, ml))
+    return res
+
+
+for _p in ("C03", "C04", "C05", "C08"):
     ENGINES[_p] = run_arena_and_printf
+ENGINES["C01"] = run_c01
 
 
 def replay(prop, path, workdir):
